@@ -9,7 +9,7 @@ import (
 )
 
 // OddNodeKinds are the malformed node shapes of the chaos profile (C20).
-var OddNodeKinds = []string{"noalloc", "zerocap", "zerocpu", "emptyprov", "shortprov", "longprov", "garbageprov", "nilmaps", "zerocreation", "nocpu"}
+var OddNodeKinds = []string{"noalloc", "zerocap", "zerocpu", "emptyprov", "shortprov", "longprov", "garbageprov", "nilmaps", "zerocreation", "nocpu", "tinycpu", "tinymem"}
 
 // OddPodKinds are the malformed pod shapes of the chaos profile (C20).
 var OddPodKinds = []string{"nocontainers", "norequests", "affinityEmpty", "nodeAffinityEmpty", "requiredEmpty", "termNoExpr", "exprNoValues",
@@ -29,6 +29,10 @@ func (w *World) applyOddNode(a Action) {
 		n.Status.Allocatable[v1.ResourceCPU] = qty(0)
 	case "nocpu":
 		delete(n.Status.Allocatable, v1.ResourceCPU)
+	case "tinycpu":
+		n.Status.Allocatable[v1.ResourceCPU] = qty(1)
+	case "tinymem":
+		n.Status.Allocatable[v1.ResourceMemory] = qtyB(1)
 	case "emptyprov":
 		n.Spec.ProviderID = ""
 	case "shortprov":
